@@ -1822,7 +1822,73 @@ fn cross_kind(ctx: &mut Ctx) {
 			}
 		}
 	}
-	ctx.traces += 26 + 36 + 6 + 4;
+	// 13. a command written WHILE a callback is being rendered (here: from inside the callback, between two internal chunks)
+	//     takes effect at the start of the NEXT callback, not in the remaining chunks of this one
+	for kind in 0..4 {
+		ctx.evals += 1;
+		use std::sync::{Arc, Mutex};
+		type Job = Arc<Mutex<Option<Box<dyn FnOnce() + Send>>>>;
+		struct Trigger(Job, usize);
+		impl kira::sound::Sound for Trigger {
+			fn process(&mut self, out: &mut [Frame], _dt: f64, _info: &kira::info::Info) {
+				out.fill(Frame::ZERO);
+				self.1 += 1;
+				// first chunk of the third callback (3 chunks per callback)
+				if self.1 == 7 {
+					if let Some(job) = self.0.lock().unwrap().take() {
+						job();
+					}
+				}
+			}
+			fn finished(&self) -> bool {
+				false
+			}
+		}
+		struct TriggerData(Job);
+		impl kira::sound::SoundData for TriggerData {
+			type Error = ();
+			type Handle = ();
+			fn into_sound(self) -> Result<(Box<dyn kira::sound::Sound>, ()), ()> {
+				Ok((Box::new(Trigger(self.0, 0)), ()))
+			}
+		}
+		let mut m = rig::manager(8, 2, rig::caps(4), MainTrackBuilder::new());
+		let job: Job = Arc::new(Mutex::new(None));
+		// the trigger is played first: it is processed before the track it talks to
+		m.play(TriggerData(job.clone())).map_err(|_| ()).unwrap();
+		let send = m.add_send_track(SendTrackBuilder::new()).unwrap();
+		let mut t = m.add_sub_track(TrackBuilder::new().with_send(&send, 0.0)).unwrap();
+		let mut snd = t.play(dc_loop(8, 0.25)).unwrap();
+		let send_id = send.id();
+		*job.lock().unwrap() = Some(match kind {
+			0 => Box::new(move || t.set_send(send_id, -20.0, instant()).unwrap()) as Box<dyn FnOnce() + Send>,
+			1 => Box::new(move || t.set_volume(-20.0, instant())),
+			2 => Box::new(move || t.pause(instant())),
+			_ => Box::new(move || snd.set_volume(-20.0, instant())),
+		});
+		let mut out: Vec<(f32, f32)> = vec![];
+		for _ in 0..5 {
+			rig::render_stereo(&mut m, 6, &mut out);
+		}
+		// callbacks 0..2 (frames 0..18) carry the old level 0.25 + 0.25 (the first chunk may ramp in); the command was
+		// written in the first chunk of callback 2 (frames 12..14)
+		let old = 0.5f32;
+		let cb2 = &out[12..18];
+		let later_changed = out[24..].iter().any(|f| (f.0 - old).abs() > 1e-6);
+		if cb2.iter().any(|f| (f.0 - old).abs() > 1e-6) || !later_changed {
+			ctx.fail(
+				"a command written while a callback is being rendered takes effect in the middle of that callback (or never) instead of at the start of the next one :: cross-kind".to_string(),
+				format!(
+					"{} issued from inside the first internal chunk of callback 2 (callbacks of 6 frames, internal buffer 2); left channel per callback {:?}; callback 2 must still be {} throughout, later callbacks must differ",
+					["track.set_send(-20 dB, instant)", "track.set_volume(-20 dB, instant)", "track.pause(instant)", "sound.set_volume(-20 dB, instant)"][kind],
+					out.chunks(6).map(|c| c.iter().map(|f| f.0).collect::<Vec<_>>()).collect::<Vec<_>>(),
+					old
+				),
+			);
+		}
+		ctx.nontrivial(hash64(&("mid-callback write", kind)));
+	}
+	ctx.traces += 26 + 36 + 6 + 4 + 4;
 	ctx.transitions += 20 + 12 * 7 + 26 + 36 + 100 + 36 * 6 + 6 * 6;
 	ctx.state(hash64(&"cross"));
 	ctx.outcome(hash64(&"cross"));
